@@ -35,6 +35,32 @@ class C05(rowgen.RowGenProp):
             c2 = rowgen.gen_case(rng, spec, rng.randint(1, 40), call_p=0.15)
             yield {"k": "gen", "gen": spec, "ops": c1["ops"] + "r" + c2["ops"]}
         yield from self.world_cases(rng, 40 if tier == "quick" else 400)
+        for _ in range(20 if tier == "quick" else 200):
+            yield self.server_touches(rng)
+
+    def server_touches(self, rng):
+        """Server mode: two or three touches in one session, a method of another stage selected between them; each
+        touch must be the rows a freshly launched Wheatley would ring (covers included)."""
+        from harness.props.c19 import method_msg
+        N = rng.choice([6, 8, 10])
+        w = 0.25
+        row_t = w * N + 0.01 * N
+        t = 1000.3 + rng.random()
+        events, touches = [], []
+        for k in range(rng.choice([2, 2, 3])):
+            stage = rng.randint(4, N)
+            events.append([t - 0.2, "msg", method_msg(stage)])
+            events.append(call(t, LOOK_TO))
+            touches.append([t, stage])
+            t_stand = t + rng.uniform(4, 8) * row_t
+            events.append(call(t_stand, scen.STAND))
+            t = t_stand + 3 * row_t + 0.5 + rng.random()
+        sc = {"start": 1000.0, "end": t, "tower_size": N, "events": events,
+              "on_join": scen.humans_on_join([], "Wheatley", list(range(1, 17))),
+              "bot": scen.bot_cfg({"type": "placeholder"}, up_down_in=True, stop_at_rounds=False,
+                                  user_name="Wheatley", server_id=rng.randint(1, 9)),
+              "rhythm": scen.stub_rhythm(w)}
+        return {"k": "world", "scenario": sc, "touches": touches, "go2": None, "t0": touches[0][0]}
 
     def world_cases(self, rng, n):
         # the same through the Bot: the method is started a second time in one session - by a second Go
@@ -94,6 +120,20 @@ class C05(rowgen.RowGenProp):
         sc = req["scenario"]
         if reply["crashed"] or reply["handler_crashes"]:
             return f"crash: main={reply['crashed']} handlers={reply['handler_crashes']}"
+        if req.get("touches"):
+            from harness.props.c19 import plain_rows
+            N = sc["tower_size"]
+            tt = req["touches"] + [[float("inf"), 0]]
+            for k in range(len(tt) - 1):
+                t_from, stage = tt[k]
+                bells = [b for (t, b, _) in reply["strikes"] if t_from <= scen.b2f(t) < tt[k + 1][0]]
+                rows = [bells[i:i + N] for i in range(0, len(bells) - len(bells) % N, N)]
+                want = [list(range(1, N + 1))] * 2 + [r + list(range(stage + 1, N + 1)) for r in plain_rows(stage, 40)]
+                for i, r in enumerate(rows):
+                    if i < len(want) and r != want[i]:
+                        return (f"touch {k + 1} (stage {stage} on {N}): row {i} is {r}, a freshly launched Wheatley rings "
+                                f"{want[i]}")
+            return None
         N = sc["tower_size"]
         spec = sc["bot"]["gen"]
         rows = scen.rows_from_strikes(reply, N)
